@@ -57,6 +57,13 @@ def cases(tier):
                                 if mix == "paired" and len(yrs) < 2:
                                     continue
                                 yield dict(kind="tsc", nprog=nprog, years=yrs, bf=bf, ltype=ltype, lo=lo, hi=hi, mix=mix, p3=p3)
+                                if mix == "plain" and len(yrs) == 2:
+                                    # the constraint names its years itself (ascending / descending) with year-specific budget factors or explicit totals;
+                                    # "reuse": the same Optimization object is used for a second, different starting allocation
+                                    for tv in ("asc_bf", "desc_bf", "desc_total"):
+                                        yield dict(kind="tsc", nprog=nprog, years=yrs, bf=bf, ltype=ltype, lo=lo, hi=hi, mix=mix, p3=p3, tsc_t=tv)
+                                if mix in ("plain", "paired") and lo == 0 and hi == 0:
+                                    yield dict(kind="tsc", nprog=nprog, years=yrs, bf=bf, ltype=ltype, lo=lo, hi=hi, mix=mix, p3=p3, reuse=True)
     for minp, maxp in itertools.product([None, [0.2, 0.1, 0.0], [0.5, 0.5, 0.0]], [None, [0.6, 0.6, 0.6], [1.0, 0.3, 0.7]]):
         for tot in (None, (50.0, 400.0)):
             for spends in ([100.0, 50.0, 30.0], [0.0, 0.0, 0.0], [90.0, 90.0, 0.0]):
@@ -172,9 +179,24 @@ def world():
 
 
 def run_tsc(case):
+    if not case.get("reuse"):
+        return _run_tsc(case, None, 1.0)
+    # one Optimization object, two different starting allocations in a row: the second pass must behave like a fresh object would
+    holder = {}
+    first = _run_tsc(case, holder, 1.0)
+    second = _run_tsc(case, holder, 3.0)
+    for v in second["violations"]:
+        v["key"] = "reused-optimization:" + v["key"]
+        v["what"] = "second use of the same Optimization object (starting allocation x3): " + v["what"]
+    second["violations"] = first["violations"] + second["violations"]
+    second["nontrivial"] = first["nontrivial"] or second["nontrivial"]
+    return second
+
+
+def _run_tsc(case, holder, scale):
     w = world()
     names = ["P1", "P2", "P3"][: case["nprog"]]
-    init = dict(P1=100.0, P2=50.0, P3=case["p3"])
+    init = dict(P1=100.0 * scale, P2=50.0 * scale, P3=case["p3"] * scale)
     yrs = case["years"]
     ltype = case["ltype"]
     lower = (0.0 if not case["lo"] else (20.0 if ltype == "abs" else 0.5))
@@ -198,7 +220,23 @@ def run_tsc(case):
     upper_y = {y: (upper if i == 0 or not np.isfinite(upper) else upper * 1.5) for i, y in enumerate(yrs)}
     for p in plain:
         adjs.append(at.SpendingAdjustment(p, yrs, ltype, [lower_y[y] for y in yrs], [upper_y[y] for y in yrs]))
-    opt = at.Optimization(adjustments=adjs, measurables=[at.MaximizeMeasurable("b", [2020, 2024])], constraints=[at.TotalSpendConstraint(budget_factor=case["bf"])], maxiters=1, maxtime=1e9)
+    # budget factor / explicit total per constrained year, as the constraint is told (bf_y is the oracle's table, keyed by year)
+    tv = case.get("tsc_t")
+    bf_y = {y: case["bf"] * (1.0 if (i == 0 or not tv) else 1.25) for i, y in enumerate(yrs)}
+    if not tv:
+        tsc = at.TotalSpendConstraint(budget_factor=case["bf"])
+    else:
+        order = list(yrs) if tv.startswith("asc") else list(reversed(yrs))
+        if tv.endswith("_bf"):
+            tsc = at.TotalSpendConstraint(t=order, budget_factor=[bf_y[y] for y in order])
+        else:
+            tsc = at.TotalSpendConstraint(t=order, total_spend=[sum(init[p] * yfac[y] for p in names) * bf_y[y] for y in order])
+    if holder is not None and "opt" in holder:
+        opt = holder["opt"]
+    else:
+        opt = at.Optimization(adjustments=adjs, measurables=[at.MaximizeMeasurable("b", [2020, 2024])], constraints=[tsc], maxiters=1, maxtime=1e9)
+        if holder is not None:
+            holder["opt"] = opt
     vs = []
     counters = {}
     lab = f"{case}"
@@ -213,7 +251,7 @@ def run_tsc(case):
         return (lo_t if ltype == "abs" else lo_t * x), (hi_t if (ltype == "abs" or not np.isfinite(hi_t)) else hi_t * x)
 
     def feasible_year(t):
-        tot = sum(init[p] * yfac[t] for p in names) * case["bf"]
+        tot = sum(init[p] * yfac[t] for p in names) * bf_y[t]
         return sum(bounds_year(p, t)[0] for p in names) <= tot <= sum(bounds_year(p, t)[1] for p in names)
     try:
         hard = opt.get_hard_constraints(x0, ins)
@@ -268,7 +306,7 @@ def run_tsc(case):
                         vs.append(V("package-total-violated", f"{lab} proposal={list(prop)}: package total {val!r} outside [50, 400]", None))
                     got += val
             if mix == "plain":
-                tot = sum(init[p] * yfac[t] for p in names) * case["bf"]  # required total recomputed from the spec
+                tot = sum(init[p] * yfac[t] for p in names) * bf_y[t]  # required total recomputed from the spec
             elif mix.startswith("package"):
                 # the package (first two programs) is adjusted in the first year only; required total recomputed from the spec, never from the library's table
                 members = names if t == yrs[0] else names[2:]
